@@ -128,10 +128,7 @@ def handle (c : Case) : Verdict :=
               else ["[C05] output violates the stream grammar"]
             else []
           let f17 := match progressCheck n bs implNoFb with
-            | some msg =>
-              -- F5: exactly the behaviour of the unchanged code (frontier increase caused by a replica's
-              -- FlushAndRestart is not announced); see Props/C17.lean `frontier_progress_counterexample`
-              if c.implOut == out then ["[C17] known:F5-frontier-increase-at-replica-end " ++ msg] else ["[C17] " ++ msg]
+            | some msg => ["[C17] " ++ msg]
             | none => []
           let all := f06 ++ f05 ++ f17
           if all.isEmpty then none else some (" ;; ".intercalate all)
